@@ -69,3 +69,129 @@ Section RT.
     - cbn [decoded f_crc]. exact Hcrc.
   Qed.
 End RT.
+
+(* ---------- one stored entry, end to end *)
+Definition dos_ok (t : DateTime) : Prop :=
+  DateTime_timepart t < 65536 /\ exists d, DateTime_datepart t = Some d /\ d < 65536.
+
+Lemma len_central_z64_le f : len (central_z64 f) <= 28.
+Proof.
+  rewrite central_z64_shape. pose proof (len_z64_body (w_usize f) (w_csize f) (w_header_start f)) as H.
+  set (body := z64_body (w_usize f) (w_csize f) (w_header_start f)) in *.
+  destruct body as [|x r] eqn:E; [unfold len; cbn; lia|].
+  rewrite !len_app, !len_le. change (N.of_nat 2) with 2. lia.
+Qed.
+
+Section Single.
+  Variable kdf : bytes -> bytes -> N -> bytes.
+  Variable blk : bytes -> bytes -> bytes.
+  Variable mac : bytes -> bytes -> bytes.
+  Variable enc : CompressionMethod -> Z -> bytes -> bytes.
+  Variable crc : bytes -> N.
+  Hypothesis crc32 : forall x, crc x < 2 ^ 32.
+
+  (* the record of a closed stored entry renders and is well-formed *)
+  Lemma stored_record_rendered name o hs ds content :
+    len name <= 65535 -> stored_opts o -> dos_ok (o_time o) -> len content <= ZIP64_BYTES_THR -> hs < 2 ^ 64 ->
+    let f := wf_set_sizes (wf_set_data_start (mk_wfile name (with_perm o 420 32768) None hs) ds) (crc content) (len content) (len content) in
+    exists cs, rendered f cs.
+  Proof.
+    intros Hn (Hm & Hlv & He & Hlg) (Htp & d & Hd & Hd16) Hlen Hhs f.
+    assert (Hch : exists cs, central_header_chunks f = Ok cs).
+    { unfold central_header_chunks. pose proof (len_central_z64_le f) as Hz.
+      assert (Hxe : w_extra f = []) by reflexivity.
+      assert ((65535 <? len (central_z64 f) + len (w_extra f)) = false) as -> by (apply N.ltb_ge; rewrite Hxe; change (len []) with 0; lia).
+      subst f. cbn [w_time wf_set_sizes wf_set_data_start mk_wfile with_perm o_time]. rewrite Hd. cbn [of_opt bind]. eexists; reflexivity. }
+    destruct Hch as [cs Hcs]. exists cs. split; [|exact Hcs].
+    constructor; subst f; cbn [w_system w_made_by w_method w_time w_crc w_ext_attr w_usize w_csize w_header_start w_name w_extra
+                              wf_set_sizes wf_set_data_start mk_wfile with_perm o_method o_time o_perm o_large o_level o_encrypt].
+    all: first [ lia
+               | unfold DEFAULT_VERSION; lia
+               | exact Htp
+               | exact Hn
+               | apply crc32
+               | apply N.mod_lt; lia
+               | unfold ZIP64_BYTES_THR in Hlen; lia
+               | exists 0%nat; reflexivity
+               | rewrite Hm; unfold method_ok; cbn; repeat split; try discriminate; lia
+               | intros d' Hd'; rewrite Hd in Hd'; injection Hd' as <-; exact Hd16 ].
+  Qed.
+
+  Theorem stored_single_roundtrip name o content :
+    len name <= 65535 -> stored_opts o -> dos_ok (o_time o) -> len content <= ZIP64_BYTES_THR ->
+    exists s1 s2 s3 data b dir,
+      start_file enc crc (new_writer []) name o = (s1, Ok tt) /\
+      zw_write_all s1 content = (s2, Ok tt) /\
+      finish enc crc s2 = (s3, Ok data) /\
+      data = b ++ dir ++ concat (end_records 1 (len b) (len dir) []) /\
+      (* unless the bytes in front of a plain end record happen to look like a ZIP64 locator (finding D22): *)
+      ((needs64 1 (len dir) (len b) = false -> no_locator_before (b ++ dir)) ->
+       exists g ds c,
+         open data = Ok {| ar_data := data; ar_files := [g]; ar_offset := 0; ar_comment := [] |} /\
+         by_index_opt kdf {| ar_data := data; ar_files := [g]; ar_offset := 0; ar_comment := [] |} 0 None = Ok (Some (g, ds, c)) /\
+         plain_inv c /\ crc_den crc plain_den (make_stored g c) = Good content /\
+         f_name_raw g = name /\ f_name g = decode_text (negb (is_ascii name)) name /\
+         f_method g = CompressionMethod_Stored /\ f_usize g = len content /\ f_csize g = len content /\ f_crc g = crc content).
+  Proof.
+    intros Hn Ho Hdos Hlen.
+    assert (Hff0 : finish_file enc crc (new_writer []) = (new_writer [], Ok tt)) by reflexivity.
+    destruct Ho as (Hm & Hlv & He & Hlg). destruct Hdos as (Htp & d & Hd & Hd16).
+    set (o' := with_perm o 420 32768). set (f0 := mk_wfile name o' None (len (@nil byte))).
+    assert (Hhdr : exists hdr, local_header_chunks f0 = Ok hdr).
+    { unfold local_header_chunks. subst f0 o'. cbn [w_time mk_wfile with_perm o_time w_extra w_large o_large]. rewrite Hd, Hlg.
+      change (len []) with 0. cbn. eexists; reflexivity. }
+    destruct Hhdr as [hdr Hhdr].
+    destruct (start_file_stored enc crc (new_writer []) (new_writer []) [] name o hdr Hff0 eq_refl eq_refl eq_refl Hn
+                (conj Hm (conj Hlv (conj He Hlg))) Hhdr) as (s1 & f & d1 & Hsf & Heo & Hf & Hd1 & Hcm1 & Hco1).
+    destruct (write_stored crc s1 [] f d1 [] [] content Heo) as (s2 & Hw & Heo2 & Hcm2 & Hco2); [change (len []) with 0; lia|].
+    cbn [app] in Heo2.
+    destruct (finish_file_stored enc crc s2 [] f d1 content [] Heo2 Hlen (crc32 content)) as (s2' & Hff & Hin' & Hfiles' & Hx' & Hraw' & Htf' & Hcm' & Hco').
+    cbn [app] in Hin', Hfiles'.
+    set (b := lh_bytes f d1 (crc content) (len content) (len content) ++ content) in *.
+    set (f' := wf_set_sizes f (crc content) (len content) (len content)) in *.
+    assert (Hcomment : ws_comment s2 = []) by (rewrite Hcm2, Hcm1; reflexivity).
+    destruct (stored_record_rendered name o (len (@nil byte)) (len (@nil byte) + len (concat hdr)) content Hn
+                (conj Hm (conj Hlv (conj He Hlg))) (conj Htp (ex_intro _ d (conj Hd Hd16))) Hlen) as [cs Hcs]; [change (len []) with 0; lia|].
+    assert (Hcs' : rendered f' cs) by (subst f' f f0 o'; exact Hcs).
+    assert (HR : Forall2 rendered (ws_files s2') [cs]) by (rewrite Hfiles'; constructor; [exact Hcs'|constructor]).
+    assert (Hclen : len (ws_comment s2) <= 65535) by (rewrite Hcomment; change (len []) with 0; lia).
+    destruct (finish_ideal enc crc s2 s2' b [cs] Hff Hin' Hclen Hcm' (Forall2_rendered_chunks _ _ HR)) as [s3 Hfin].
+    rewrite Hfiles', Hcomment in Hfin. cbn [length map concat] in Hfin. rewrite app_nil_r in Hfin.
+    exists s1, s2, s3. eexists. exists b, (concat cs).
+    split; [exact Hsf|]. split; [exact Hw|]. split; [exact Hfin|]. split; [reflexivity|].
+    intro Hloc.
+    (* the reader *)
+    assert (Hfn : w_name f = name) by (rewrite Hf; reflexivity).
+    assert (Hfm : w_method f = CompressionMethod_Stored) by (rewrite Hf; cbn [wf_set_data_start mk_wfile w_method with_perm o_method]; exact Hm).
+    assert (Hfe : w_encrypted f = false) by (rewrite Hf; cbn [wf_set_data_start mk_wfile w_encrypted with_perm o_encrypt]; rewrite He; reflexivity).
+    assert (Hfh : w_header_start f = len (@nil byte)) by (rewrite Hf; reflexivity).
+    clear Hf.
+    assert (Hbl : len b + len (concat cs) < 2 ^ 64).
+    { subst b. rewrite len_app, len_lh_bytes.
+      destruct Hcs' as [_ Hch]. destruct (central_chunks_flat f' cs Hch) as (dd & _ & Hel & Hflat).
+      rewrite Hflat, !len_app, len_central_fixed. pose proof (len_central_z64_le f'). unfold ZIP64_BYTES_THR in Hlen.
+      assert (Hnm : w_name f' = name) by (subst f'; exact Hfn). rewrite Hnm, Hfn. lia. }
+    destruct Hcs' as [W Hch].
+    destruct (central_chunks_flat f' cs Hch) as (dd & Hdd & _ & _).
+    destruct (from_msdos_total dd (DateTime_timepart (w_time f')) (wc_dp _ _ W dd Hdd)) as [dt Hdt].
+    assert (Hcs' : rendered f' cs) by (split; assumption).
+    assert (Hgs : decoded_list [f'] [cs] (len b) [decoded f' dt 0 (len b)])
+      by (econstructor; [exists dd; split; eassumption|constructor]).
+    destruct (open_rendered b [f'] [cs] [] [decoded f' dt 0 (len b)]) as (data & Hdata & Hopen);
+      [constructor; [exact Hcs'|constructor] | cbn [map concat]; rewrite app_nil_r; exact Hbl | change (len []) with 0; lia
+      | cbn [map concat length]; rewrite app_nil_r; exact Hloc | apply no_later_sig_empty | exact Hgs |].
+    cbn [map concat length] in Hdata, Hopen. rewrite app_nil_r in Hdata. subst data.
+    set (data := b ++ concat cs ++ concat (end_records 1 (len b) (len (concat cs)) [])) in *.
+    set (ar := {| ar_data := data; ar_files := [decoded f' dt 0 (len b)]; ar_offset := 0; ar_comment := [] |}) in *.
+    assert (Hlay : laid_out crc b f' content).
+    { exists [], [], d1, f. subst b. rewrite app_nil_r. split; [reflexivity|].
+      subst f'. cbn [wf_set_sizes w_header_start w_name w_crc w_csize w_usize w_method w_encrypted].
+      rewrite Hfn. repeat split; auto. }
+    destruct (read_laid_out kdf blk mac crc crc32 ar 0 f' dt (len b) content (concat cs ++ concat (end_records 1 (len b) (len (concat cs)) [])) b)
+      as (ds & c & Hby & Hpi & Hden); [reflexivity|exact Hlay|reflexivity|lia|].
+    exists (decoded f' dt 0 (len b)), ds, c.
+    split; [exact Hopen|]. split; [exact Hby|]. split; [exact Hpi|]. split; [exact Hden|].
+    subst f'. cbn [decoded wf_set_sizes f_name_raw f_name f_method f_usize f_csize f_crc w_name w_method w_usize w_csize w_crc].
+    rewrite Hfn, Hfm. repeat split.
+  Qed.
+End Single.
